@@ -1,4 +1,5 @@
 import RV.Model.Kepler
+import RV.Model.Kepler512
 import RV.Driver.Util
 open RV RV.Driver RV.Kepler
 
@@ -48,6 +49,10 @@ def step (toks : List String) : String :=
       match solve (fl M) dt ⟨x, y, z, vx, vy, vz⟩ with
       | .error h => hangStr h
       | .ok s => p6Str s.p ++ " " ++ hx s.X ++ " " ++ trStr s.tr
+    | _ => "bad-op"
+  | "solve512" :: M :: rest =>
+    match rest.map fl with
+    | [x, y, z, vx, vy, vz, dt] => p6Str (solve512 (fl M) dt ⟨x, y, z, vx, vy, vz⟩)
     | _ => "bad-op"
   | "var" :: M :: rest =>
     match rest.map fl with
